@@ -236,7 +236,13 @@ def key_of_text(rowtext, ref, key):
 
 # ------------------------------------------------------------------ generators
 
-def gen_values(r, vt, n):
+BOUNDARY = [127, 128, 129, -127, -128, -129, 32767, 32768, 32769, -32767, -32768, -32769,
+            2 ** 31 - 1, 2 ** 31, 2 ** 31 + 1, -2 ** 31 + 1, -2 ** 31, -2 ** 31 - 1]      # edges of int8 / int16 / int32
+
+
+def gen_values(r, vt, n, boundary=False):
+    if vt == 'INTEGER' and boundary:
+        return [r.choice([-3, 0, 1, 2, 7, r.choice(BOUNDARY), r.choice(BOUNDARY)]) for _ in range(n)]
     if vt == 'SPIN':
         return [r.choice([-1, 1]) for _ in range(n)]
     if vt == 'BINARY':
@@ -254,7 +260,8 @@ def gen_ss(r, labels=None, vt=None, fields=None, m=None, tiefree=False, dt=None)
         labels = r.sample(pool, r.choice([0, 1, 2, 2, 3, 3, 4, min(5, len(pool))]))
     n = len(labels)
     m = r.choice([0, 1, 2, 3, 4, 5, 6]) if m is None else m
-    rows = [gen_values(r, vt, n) for _ in range(m)]
+    plain = vt == 'INTEGER' and dt is None and m > 0 and n > 0 and r.random() < .35     # dtype-less list: as_samples picks the smallest dtype
+    rows = [gen_values(r, vt, n, boundary=plain) for _ in range(m)]
     if m and r.random() < .6:                       # duplicate rows
         for _ in range(r.randint(1, 3)):
             rows[r.randrange(m)] = list(rows[r.randrange(m)])
@@ -279,7 +286,8 @@ def gen_ss(r, labels=None, vt=None, fields=None, m=None, tiefree=False, dt=None)
             vec[f] = [[F(r.randint(-8, 8), 4), r.randint(0, 2)] for _ in range(m)]
     sort = r.random() < .5
     flt = lambda x: repr(float(x))
-    src = (f"ss = dimod.SampleSet.from_samples((np.array({[[float(x) for x in row] for row in rows]!r}, dtype='{dt}').reshape({m}, {n}), {labels!r}), "
+    arr_src = repr([[int(x) for x in row] for row in rows]) if plain else f"np.array({[[float(x) for x in row] for row in rows]!r}, dtype='{dt}').reshape({m}, {n})"
+    src = (f"ss = dimod.SampleSet.from_samples(({arr_src}, {labels!r}), "
            f"{vt!r}, energy=np.array([{', '.join(flt(e) for e in en)}], dtype=float), num_occurrences=np.array({occ!r}, dtype=int), sort_labels={sort}, info={{'k': [1, {{'z': 2}}]}}"
            + ''.join(f", {f}=np.array({[[float(x) for x in v] if isinstance(v, list) else v for v in vec[f]]!r}, dtype={'float' if f == 'ev' else 'int'}).reshape({(m, 2) if f == 'ev' else (m,)})" for f in fields) + ')')
     ref = Ref(vt, labels, fields, [[[F(x) for x in rows[i]], en[i], occ[i], [([F(x) for x in vec[f][i]] if f == 'ev' else [F(vec[f][i])]) for f in fields]] for i in range(m)])
@@ -396,9 +404,11 @@ def history(ctx, r, lines, expect, meta):
                 if r.random() < .1 and ref.labels:
                     nl[0] = r.choice(ref.labels)
                 k = r.choice([1, len(ref.rows), len(ref.rows), 2])
-                nr = [gen_values(r, ref.vt, len(nl)) for _ in range(k)]
+                plain = ref.vt == 'INTEGER' and k > 0 and r.random() < .4
+                nr = [gen_values(r, ref.vt, len(nl), boundary=plain) for _ in range(k)]
                 sort = r.random() < .5
-                code = f'out = dimod.append_variables(ss, (np.array({[[float(x) for x in row] for row in nr]!r}).reshape({k}, {len(nl)}), {nl!r}), sort_labels={sort})'
+                arr_src = repr([[int(x) for x in row] for row in nr]) if plain else f'np.array({[[float(x) for x in row] for row in nr]!r}).reshape({k}, {len(nl)})'
+                code = f'out = dimod.append_variables(ss, ({arr_src}, {nl!r}), sort_labels={sort})'
                 line = f'appendvars 0 0 {int(sort)} ' + ','.join(lab(v) for v in nl) + ' ' + ('|'.join(','.join(rat(x) for x in row) for row in nr) or '-')
                 exp = ref.append_vars(nl, [[F(x) for x in row] for row in nr], sort)
             elif op in ('change', 'change_ip'):
@@ -638,7 +648,7 @@ def as_samples_cases(ctx, r, lines, expect, meta, ncases):
         m = r.choice([0, 1, 1, 2, 3, 4])
         labels = r.sample(pool, n)
         vt = r.choice(['SPIN', 'BINARY', 'INTEGER', 'REAL'])
-        rows = [gen_values(r, vt, n) for _ in range(m)]
+        rows = [gen_values(r, vt, n, boundary=r.random() < .5) for _ in range(m)]
         pyrows = [[float(x) if vt == 'REAL' else int(x) for x in row] for row in rows]
         forms = []
         orders = [r.sample(range(n), n) for _ in range(m)]
